@@ -2,17 +2,27 @@
 import importlib.util, os
 _s = importlib.util.spec_from_file_location("sc", os.path.join(VERIF, "props", "_storage_common.py")); sc = importlib.util.module_from_spec(_s); _s.loader.exec_module(sc)
 
+COMP = "acquire-core-libs/src/acquire-device-properties/device/props/components.c"
+
 def step(pmax, timeout=900, solver="cadical"):
     return H("raw_append_step_P%d" % pmax, "harness/storage/raw_cycles.c",
-             repo=[sc.PLAT, sc.PROPS, sc.HALS, sc.HALD], env=sc.ENV,
+             repo=[sc.PLAT, sc.PROPS, sc.HALS, sc.HALD, COMP], env=sc.ENV,
              defines=["MODE=141", "DEV=1", "PMAX=%d" % pmax], cflags=sc.cflags(VERIF), replay_cflags=sc.REPLAY_SYS,
              unwind=max(13, pmax + 5), solver=solver, timeout=timeout, mem_gb=16,
              what="append step: Running raw device with ARBITRARY 64-bit file offset, one append of 0..%d arbitrary bytes, every short-write pattern; each accepted pwrite must be on the own descriptor, at offset0+done, from packet+done" % pmax,
              bounds=dict(packet_bytes="0..%d" % pmax, offset="0..2^62", pwrite="any count in [0,n], up to 3 zero-byte results"))
 
+def framed(timeout=900, solver="cadical"):
+    return H("raw_append_frames", "harness/storage/raw_cycles.c",
+             repo=[sc.PLAT, sc.PROPS, sc.HALS, sc.HALD, COMP], env=sc.ENV,
+             defines=["MODE=143", "DEV=1"], cflags=sc.cflags(VERIF), replay_cflags=sc.REPLAY_SYS,
+             unwind=16, solver=solver, timeout=timeout, mem_gb=16,
+             what="append step on a packet of 1..2 WHOLE frames (image bytes 0..9 each: every residue mod 8; size field rounded up to 8; consistent shape) at an arbitrary 64-bit offset, every short-write pattern: the file receives every byte of the packet incl. alignment padding, in order",
+             bounds=dict(frames="1..2", image_bytes="0..9", offset="0..2^62"))
+
 def cycles(c, napp, pmax, timeout=900, solver="cadical"):
     return H("raw_cycles_C%d_A%d_P%d" % (c, napp, pmax), "harness/storage/raw_cycles.c",
-             repo=[sc.PLAT, sc.PROPS, sc.HALS, sc.HALD], env=sc.ENV,
+             repo=[sc.PLAT, sc.PROPS, sc.HALS, sc.HALD, COMP], env=sc.ENV,
              defines=["MODE=142", "DEV=1", "CYCLES=%d" % c, "NAPP=%d" % napp, "PMAX=%d" % pmax], cflags=sc.cflags(VERIF),
              replay_cflags=sc.REPLAY_SYS, unwind=13, solver=solver, timeout=timeout, mem_gb=16,
              what="%d x (set symbolic URI spelling; start; <=%d appends of 0..%d bytes; stop) on one raw device via the HAL: every write goes to the URI's file at offset == bytes appended earlier in THIS acquisition; descriptor closed at stop" % (c, napp, pmax),
@@ -20,8 +30,8 @@ def cycles(c, napp, pmax, timeout=900, solver="cadical"):
 
 def harnesses(tier, findings):
     if tier == "quick":
-        return [step(4), cycles(2, 2, 4)]
-    return [step(8, 3000), cycles(2, 3, 8, 3000), cycles(2, 4, 4, 3000)]
+        return [step(4), framed(), cycles(2, 2, 4)]
+    return [step(8, 3000), framed(3000), cycles(2, 3, 8, 3000), cycles(2, 4, 4, 3000)]
 
 META = dict(
     level="model_checking",
